@@ -143,6 +143,9 @@ type Raw3MF struct {
 	Unit    string
 	Objects []RawObject3MF
 	Items   []RawItem3MF
+	// Metadata: the <metadata name="..."> elements of the model, as "name=value", and any attribute of the
+	// <model> element other than unit / xmlns / xml:lang, as "@name=value" (in document order)
+	Metadata []string
 }
 
 // RawObject3MF is an <object> element.
@@ -161,8 +164,13 @@ type RawItem3MF struct {
 }
 
 type xmlModel3MF struct {
-	XMLName   xml.Name `xml:"model"`
-	Unit      string   `xml:"unit,attr"`
+	XMLName  xml.Name   `xml:"model"`
+	Unit     string     `xml:"unit,attr"`
+	Attrs    []xml.Attr `xml:",any,attr"`
+	Metadata []struct {
+		Name  string `xml:"name,attr"`
+		Value string `xml:",chardata"`
+	} `xml:"metadata"`
 	Resources struct {
 		Objects []struct {
 			ID   string `xml:"id,attr"`
@@ -222,6 +230,15 @@ func Read3MFRaw(path string) (*Raw3MF, error) {
 		return nil, err
 	}
 	out := &Raw3MF{Part: part.Name, Unit: m.Unit}
+	for _, a := range m.Attrs {
+		if a.Name.Space == "xmlns" || a.Name.Local == "xmlns" || a.Name.Local == "lang" || a.Name.Local == "requiredextensions" {
+			continue
+		}
+		out.Metadata = append(out.Metadata, "@"+a.Name.Local+"="+a.Value)
+	}
+	for _, md := range m.Metadata {
+		out.Metadata = append(out.Metadata, md.Name+"="+md.Value)
+	}
 	for _, o := range m.Resources.Objects {
 		ro := RawObject3MF{ID: o.ID, Type: o.Type, Meshes: len(o.Mesh)}
 		for _, me := range o.Mesh {
